@@ -242,7 +242,17 @@ class BeautifulSoupHTMLParser(HTMLParser, DetectsXMLParsedAsHTML):
         elif name.startswith("X"):
             real_name = int(name.lstrip("X"), 16)
         else:
-            real_name = int(name)
+            # int() refuses to convert a decimal string that has more
+            # digits than sys.get_int_max_str_digits() allows (it
+            # raises ValueError). A number with more significant
+            # digits than the largest code point (1114111) is outside
+            # the Unicode range whatever its exact value is, so it's
+            # never converted at all.
+            digits = name.lstrip("0")
+            if len(digits) > 7:
+                real_name = 0x110000
+            else:
+                real_name = int(digits or "0")
 
         data = None
         if real_name < 256:
